@@ -11,14 +11,71 @@ package main
 import (
 	"bytes"
 	"crypto/sha256"
+	"io"
+	"os"
 	"sort"
+
+	"github.com/ipfs/go-unixfsnode/data/builder"
+	"github.com/ipld/go-ipld-prime"
+	cidlink "github.com/ipld/go-ipld-prime/linking/cid"
 )
+
+// rootBlockOf writes the tree t to a scratch directory and returns the bytes of the root block
+// that `car create`'s builder (go-unixfsnode BuildUnixFSRecursive) makes for it: the dag-pb node
+// of a directory, of a symlink, of a multi-chunk file; the raw leaf of a small file.
+func rootBlockOf(c *Ctx, t *stree) []byte {
+	dir, err := os.MkdirTemp(c.Work, "blk")
+	if err != nil {
+		panic(err)
+	}
+	defer os.RemoveAll(dir)
+	var write func(p string, t *stree)
+	write = func(p string, t *stree) {
+		var err error
+		switch t.kind {
+		case 'f':
+			err = os.WriteFile(p, t.data, 0o644)
+		case 'l':
+			err = os.Symlink(string(t.data), p)
+		default:
+			err = os.Mkdir(p, 0o755)
+			for _, e := range t.ents {
+				write(p+"/"+string(e.name), e.t)
+			}
+		}
+		if err != nil {
+			panic(err)
+		}
+	}
+	write(dir+"/x", t)
+	store := map[string][]byte{}
+	ls := cidlink.DefaultLinkSystem()
+	ls.TrustedStorage = true
+	ls.StorageWriteOpener = func(_ ipld.LinkContext) (io.Writer, ipld.BlockWriteCommitter, error) {
+		buf := bytes.NewBuffer(nil)
+		return buf, func(l ipld.Link) error {
+			store[l.Binary()] = append([]byte(nil), buf.Bytes()...)
+			return nil
+		}, nil
+	}
+	ls.StorageReadOpener = func(_ ipld.LinkContext, l ipld.Link) (io.Reader, error) {
+		return bytes.NewReader(store[l.Binary()]), nil
+	}
+	lnk, _, err := builder.BuildUnixFSRecursive(dir+"/x", &ls)
+	if err != nil {
+		panic(err)
+	}
+	return store[lnk.Binary()]
+}
 
 type stree struct {
 	kind byte // 'f' file, 'l' symlink, 'd' directory
 	data []byte
-	seed uint64 // big files: content = bigFileData(seed, size)
-	size int
+	seed  uint64 // contents longer than 64 bytes: data = contentOf(seed, size, ztail, rep, explicit)
+	size  int
+	ztail int // trailing zero bytes
+	rep   int // > 0: one random 256 KiB chunk repeated
+	zhead int // leading zero bytes
 	ents []sent
 }
 type sent struct {
@@ -36,6 +93,7 @@ type c18gen struct {
 	r       *RNG
 	c       *Ctx
 	recipes VL
+	last    *stree // previous regular file (for duplicates)
 	nodes   int
 	feat    map[string]bool
 	maxDep  int
@@ -116,8 +174,36 @@ func (g *c18gen) tree(depth int, forceDir bool) *stree {
 		g.feat["symlink"] = true
 		return &stree{kind: 'l', data: []byte(pick(r, c18Targets))}
 	default:
+		if g.last != nil && r.Chance(8) {
+			g.feat["duplicate-file"] = true
+			cp := *g.last
+			return &cp
+		}
+		if r.Chance(6) {
+			g.feat["zero-blocks"] = true
+			size := pick(r, []int{32768, 65536, 40000, 98304, 1})
+			zt := size
+			seed := uint64(0)
+			if r.Bool() && size > 1 {
+				// random head, the last 32 KiB-aligned block(s) zero
+				zt = 32768 * (1 + r.Intn(2))
+				size = zt + pick(r, []int{32768, 65536, 10})
+				if size%32768 != 0 {
+					size = 65536
+					zt = 65536 - 10
+				}
+				seed = r.U64() | 1
+			}
+			t := &stree{kind: 'f', seed: seed, size: size, ztail: zt}
+			t.data = contentOf(seed, size, zt, 0, nil)
+			g.last = t
+			return t
+		}
 		d, seed, size := g.content()
-		return &stree{kind: 'f', data: d, seed: seed, size: size}
+		t := &stree{kind: 'f', data: d, seed: seed | 1, size: size}
+		t.data = contentOf(t.seed, size, 0, 0, nil)
+		g.last = t
+		return t
 	}
 }
 
@@ -127,7 +213,11 @@ func (g *c18gen) emitTree(t *stree, p VL, fs *VL) Val {
 	case 'f':
 		d := absData(t.data)
 		if len(t.data) > 64 {
-			g.recipes = append(g.recipes, VL{VB(d), VN(t.seed), VN(uint64(t.size))})
+			if t.seed == 0 && t.ztail == 0 && t.rep == 0 && t.zhead == 0 {
+				g.recipes = append(g.recipes, VL{VB(d), VN(0), VN(uint64(len(t.data))), VN(0), VN(0), VB(t.data)})
+			} else {
+				g.recipes = append(g.recipes, VL{VB(d), VN(t.seed), VN(uint64(t.size)), VN(uint64(t.ztail)), VN(uint64(t.rep)), VB(nil), VN(uint64(t.zhead))})
+			}
 		}
 		*fs = append(*fs, VL{p, VL{VT("f"), VB(d)}})
 		return VL{VT("f"), VB(d)}
@@ -242,6 +332,76 @@ func init() {
 			g.nodes = 5
 			c18Case(c, g, []byte("t"), t, 2, true, mode, false, true, "directed:coq-example")
 		}
+		// ---- equal multihash under different codecs / repeated blocks: `car create` stores one block
+		// per multihash, the extractor must find it whatever the codec of the link it follows.
+		// Files whose bytes are the dag-pb encoding of another node of the same tree (the empty
+		// directory, a small directory, a multi-chunk file's root, a symlink node), on both sides of
+		// that node in name order; identical files; several empty files; a file of one repeated chunk.
+		{
+			mk := func() (*stree, int) {
+				fileOf := func(b []byte) *stree { return &stree{kind: 'f', data: append([]byte(nil), b...)} }
+				empty := &stree{kind: 'd'}
+				sub := &stree{kind: 'd', ents: []sent{
+					{[]byte("a"), fileOf([]byte("hello"))},
+					{[]byte("l"), &stree{kind: 'l', data: []byte("x")}},
+				}}
+				big := &stree{kind: 'f', seed: 4242, size: 300000}
+				big.data = contentOf(big.seed, big.size, 0, 0, nil)
+				lnk := &stree{kind: 'l', data: []byte("somewhere/else")}
+				rep := &stree{kind: 'f', seed: 99, size: 3 * 262144, rep: 1}
+				rep.data = contentOf(rep.seed, rep.size, 0, rep.rep, nil)
+				bEmpty := rootBlockOf(c, empty) // 0a 02 08 01
+				bSub := rootBlockOf(c, sub)
+				bBig := rootBlockOf(c, big)
+				bLnk := rootBlockOf(c, lnk)
+				dupBig := *big
+				t := &stree{kind: 'd', ents: []sent{
+					{[]byte("a-emptydir-bytes"), fileOf(bEmpty)}, {[]byte("emptydir"), empty}, {[]byte("z-emptydir-bytes"), fileOf(bEmpty)},
+					{[]byte("a-sub-bytes"), fileOf(bSub)}, {[]byte("sub"), sub}, {[]byte("z-sub-bytes"), fileOf(bSub)},
+					{[]byte("a-big-bytes"), fileOf(bBig)}, {[]byte("big"), big}, {[]byte("z-big-bytes"), fileOf(bBig)},
+					{[]byte("a-lnk-bytes"), fileOf(bLnk)}, {[]byte("lnk"), lnk}, {[]byte("z-lnk-bytes"), fileOf(bLnk)},
+					{[]byte("dup1"), fileOf([]byte("same content"))}, {[]byte("dup2"), fileOf([]byte("same content"))},
+					{[]byte("dupbig"), &dupBig},
+					{[]byte("e1"), fileOf(nil)}, {[]byte("e2"), fileOf(nil)}, {[]byte("e3"), fileOf(nil)},
+					{[]byte("hello-again"), fileOf([]byte("hello"))},
+					{[]byte("repeated-chunk"), rep},
+				}}
+				return t, 24
+			}
+			for _, version := range []uint64{1, 2} {
+				for mode := uint64(0); mode < 3; mode++ {
+					g := &c18gen{r: r.Fork(), c: c, feat: map[string]bool{"same-multihash-different-codec": true, "duplicate-file": true, "symlink": true, "multi-chunk-file": true}, maxDep: 3}
+					t, n := mk()
+					g.nodes = n
+					c18Case(c, g, []byte("coll"), t, version, mode == 1, mode, false, false, "directed:same-multihash-across-codecs")
+				}
+			}
+		}
+		// ---- zero-filled 32 KiB blocks: all-zero files and files ending in whole blocks of zeros must
+		// come back with their full length
+		for _, version := range []uint64{1, 2} {
+			for _, mode := range []uint64{0, 2} {
+				g := &c18gen{r: r.Fork(), c: c, feat: map[string]bool{"zero-blocks": true, "multi-chunk-file": true}, maxDep: 3}
+				zf := func(seed uint64, size, zt int) *stree {
+					t := &stree{kind: 'f', seed: seed, size: size, ztail: zt}
+					t.data = contentOf(seed, size, zt, 0, nil)
+					return t
+				}
+				t := &stree{kind: 'd', ents: []sent{
+					{[]byte("zero-1"), zf(0, 1, 1)}, {[]byte("zero-32k"), zf(0, 32768, 32768)}, {[]byte("zero-64k"), zf(0, 65536, 65536)},
+					{[]byte("zero-40000"), zf(0, 40000, 40000)}, {[]byte("zero-600000"), zf(0, 600000, 600000)},
+					{[]byte("head-then-32k-zeros"), zf(11, 65536, 32768)}, {[]byte("ten-bytes-then-zeros"), zf(13, 65536, 65526)},
+					{[]byte("multi-chunk-then-64k-zeros"), zf(17, 262144+65536, 65536)}, {[]byte("unaligned-zero-tail"), zf(19, 50000, 40000)},
+					{[]byte("zeros-then-data"), func() *stree {
+						t := &stree{kind: 'f', seed: 23, size: 98304, zhead: 65536}
+						t.data = contentOf(t.seed, t.size, 0, 0, nil, t.zhead)
+						return t
+					}()},
+				}}
+				g.nodes = 11
+				c18Case(c, g, []byte("zeros"), t, version, false, mode, false, false, "directed:zero-blocks")
+			}
+		}
 		// lone file / lone symlink sources
 		for _, nowrap := range []bool{false, true} {
 			for _, k := range []byte{'f', 'l'} {
@@ -250,7 +410,7 @@ func init() {
 				if k == 'f' && nowrap {
 					t.seed = 77
 					t.size = 262145
-					t.data = bigFileData(t.seed, t.size)
+					t.data = contentOf(t.seed, t.size, 0, 0, nil)
 				}
 				g.nodes = 1
 				c18Case(c, g, []byte("lone"), t, 1+uint64(r.Intn(2)), nowrap, 0, r.Bool(), r.Bool(), "directed:lone-"+string(k))
@@ -267,6 +427,34 @@ func init() {
 			used := map[string]bool{}
 			top := g.name(used)
 			t := g.tree(0, gr.Chance(85))
+			if t.kind == 'd' && gr.Chance(15) {
+				// files whose bytes are the dag-pb node of a sibling (same multihash, other codec)
+				g.feat["same-multihash-different-codec"] = true
+				have := map[string]bool{}
+				for _, e := range t.ents {
+					have[string(e.name)] = true
+				}
+				add := func(n string, x *stree) {
+					if !have[n] {
+						have[n] = true
+						t.ents = append(t.ents, sent{[]byte(n), x})
+						g.nodes++
+					}
+				}
+				ed := &stree{kind: 'd'}
+				b := rootBlockOf(c, ed)
+				add("mm-emptydir", ed)
+				add("aa-emptydir-bytes", &stree{kind: 'f', data: b})
+				add("zz-emptydir-bytes", &stree{kind: 'f', data: append([]byte(nil), b...)})
+				for _, e := range t.ents {
+					if e.t.kind == 'l' {
+						lb := rootBlockOf(c, e.t)
+						add("aa-link-node-bytes", &stree{kind: 'f', data: lb})
+						add("zz-link-node-bytes", &stree{kind: 'f', data: append([]byte(nil), lb...)})
+						break
+					}
+				}
+			}
 			c18Case(c, g, top, t, 1+uint64(gr.Intn(2)), gr.Chance(30), uint64(gr.Intn(3)), gr.Chance(30), gr.Chance(30), "random")
 		}
 		// ---- many siblings (directory sharding: sum of name+cid lengths > 256 KiB)
